@@ -37,10 +37,16 @@ def mapDownZero (m : Mode) (c : WMCore) (index l : Nat) : Outcome Nat := do
   let b ← c.level l
   b.rankZeroQ m index
 
-def mapUpOne (m : Mode) (c : WMCore) (index l : Nat) : Outcome (Option Nat) := do
+/-- `map_up_one` as first coded: unchecked `index - zeros` (finding F4) -/
+def mapUpOneOld (m : Mode) (c : WMCore) (index l : Nat) : Outcome (Option Nat) := do
   let b ← c.level l
   let i ← subM m index b.countZeros
   b.selectQ m i
+
+/-- `map_up_one` (repaired): `index.checked_sub(zeros)?` -/
+def mapUpOne (m : Mode) (c : WMCore) (index l : Nat) : Outcome (Option Nat) := do
+  let b ← c.level l
+  if index < b.countZeros then return none else b.selectQ m (index - b.countZeros)
 
 def mapUpZero (m : Mode) (c : WMCore) (index l : Nat) : Outcome (Option Nat) := do
   let b ← c.level l
@@ -135,11 +141,19 @@ def get (m : Mode) (w : WM) (index : Nat) : Outcome Nat := do
   let r ← w.inverseSelect m index >>= unwrapM
   return r.2
 
-def select (m : Mode) (w : WM) (rank value : Nat) : Outcome (Option Nat) := do
+/-- `select` as first coded: unchecked `start + rank` (finding F4) -/
+def selectOld (m : Mode) (w : WM) (rank value : Nat) : Outcome (Option Nat) := do
   if !(← w.contains value) then return none else do
   let s ← w.start value
   let i ← addM m s rank
   w.data.mapUpWith m i value
+
+/-- `select` (repaired): `start.checked_add(rank)?` -/
+def select (m : Mode) (w : WM) (rank value : Nat) : Outcome (Option Nat) := do
+  if !(← w.contains value) then return none else do
+  let s ← w.start value
+  if s + rank ≥ U64 then return none else
+  w.data.mapUpWith m (s + rank) value
 
 /-- `ValueIter::next` : state is the next rank -/
 def valueIterNext (m : Mode) (w : WM) (value rank : Nat) : Outcome (Option (Nat × Nat) × Nat) :=
@@ -148,10 +162,15 @@ def valueIterNext (m : Mode) (w : WM) (value rank : Nat) : Outcome (Option (Nat 
     | some index => return (some (rank, index), rank + 1)
     | none => return (none, w.len)
 
-/-- default `VectorIndex::predecessor`: returns the starting rank of the value iterator -/
-def predecessor (m : Mode) (w : WM) (index value : Nat) : Outcome Nat := do
+/-- default `VectorIndex::predecessor` as first coded (returns the starting rank of the value iterator): unclamped `index + 1` (finding F3) -/
+def predecessorOld (m : Mode) (w : WM) (index value : Nat) : Outcome Nat := do
   let i1 ← addM m index 1
   let r ← w.rank m i1 value
+  return if r > 0 then r - 1 else w.len
+
+/-- default `predecessor` (repaired): `index.saturating_add(1)` -/
+def predecessor (m : Mode) (w : WM) (index value : Nat) : Outcome Nat := do
+  let r ← w.rank m (BitVector.satAdd index 1) value
   return if r > 0 then r - 1 else w.len
 
 def successor (m : Mode) (w : WM) (index value : Nat) : Outcome Nat := w.rank m index value
